@@ -431,6 +431,11 @@ pub enum Pipeline {
         driver: bool,
         /// fragment parsing with a form element pointer supplied by the embedder
         with_form: bool,
+        /// how the embedder uses the `Parser` when `driver` is set: 0 = `process()` per chunk, then
+        /// `finish()`; 1 = every chunk queued by hand on `parser.input_buffer`, nothing fed, then
+        /// `finish()`; 2 = per chunk: queue it and call `parser.tokenizer.feed()` ONCE (it stops at
+        /// the first suspension and leaves the rest queued), then `finish()`
+        driver_mode: u8,
     },
 }
 
@@ -451,11 +456,11 @@ impl HtmlCase {
                 "kind": "rcdom",
                 "context": context.as_ref().map(|(n, l)| json!({"ns": n, "local": l})),
                 "ctx_scripting": ctx_scripting }),
-            Pipeline::Tree { context, ctx_scripting, attach_ok, allow_shadow, driver, with_form } => json!({
+            Pipeline::Tree { context, ctx_scripting, attach_ok, allow_shadow, driver, with_form, driver_mode } => json!({
                 "kind": "tree",
                 "context": context.as_ref().map(|(n, l)| json!({"ns": n, "local": l})),
                 "ctx_scripting": ctx_scripting, "attach_ok": attach_ok, "allow_shadow": allow_shadow,
-                "driver": driver, "with_form": with_form }),
+                "driver": driver, "with_form": with_form, "driver_mode": driver_mode }),
         };
         json!({"input": self.input, "opts": self.opts.to_json(), "pipeline": pipeline, "schedule": self.schedule.to_json()})
     }
@@ -495,6 +500,7 @@ impl HtmlCase {
                 allow_shadow: p["allow_shadow"].as_bool().unwrap_or(true),
                 driver: p["driver"].as_bool().unwrap_or(false),
                 with_form: p["with_form"].as_bool().unwrap_or(false),
+                driver_mode: p["driver_mode"].as_u64().unwrap_or(0) as u8,
             }
         };
         HtmlCase {
@@ -544,6 +550,7 @@ pub struct RunStats {
     pub end_at_pause: u64,
     pub livelock: u64,
     pub script_removals: u64,
+    pub hand_driven_parser: u64,
 }
 
 pub struct RunObs {
@@ -836,12 +843,17 @@ pub fn drive<D: Driven>(
 }
 
 thread_local! {
+    /// Per-token consumption measurement (pops every buffer of the queue and pushes it back): only
+    /// C09 needs it, and it must stay off elsewhere — a measurement that touches the queue at every
+    /// token would reset any state a BufferQueue keeps between two calls and so hide what depends on it.
+    pub static PROBE_TOKENS: Cell<bool> = const { Cell::new(false) };
     /// set by checks that want to look at the RcDom tree of an RcDom-pipeline run
     pub static KEEP_RC_TREE: Cell<bool> = const { Cell::new(false) };
 }
 
 pub fn run_html(case: &HtmlCase, record_calls: bool, emulate_never_mirror: bool) -> RunObs {
     let probe = Rc::new(Probe::new());
+    probe.enabled.set(PROBE_TOKENS.with(|p| p.get()));
     match &case.pipeline {
         Pipeline::Tok { policy, initial_state, last_start_tag } => {
             let mut topts = case.opts.tok_opts();
@@ -902,7 +914,7 @@ pub fn run_html(case: &HtmlCase, record_calls: bool, emulate_never_mirror: bool)
             obs.rc_tree = rc_tree;
             obs
         },
-        Pipeline::Tree { context, ctx_scripting, attach_ok, allow_shadow, driver, with_form } => {
+        Pipeline::Tree { context, ctx_scripting, attach_ok, allow_shadow, driver, with_form, driver_mode } => {
             let policy = SinkPolicy {
                 attach_ok: *attach_ok,
                 allow_shadow: *allow_shadow,
@@ -928,9 +940,19 @@ pub fn run_html(case: &HtmlCase, record_calls: bool, emulate_never_mirror: bool)
                     stats.chunks += 1;
                     stats.events += 1;
                     logical.push_str(&ch);
-                    parser.process(ch);
+                    match *driver_mode {
+                        1 => parser.input_buffer.push_back(ch),
+                        2 => {
+                            parser.input_buffer.push_back(ch);
+                            let _ = parser.tokenizer.feed(&parser.input_buffer);
+                        },
+                        _ => parser.process(ch),
+                    }
                 }
                 stats.events += 1;
+                if *driver_mode != 0 {
+                    stats.hand_driven_parser += 1;
+                }
                 let model = parser.finish();
                 let mut obs = finish_obs(vec![], vec![], vec![], None, 1, 0, 1, &probe, stats, Some(model), None);
                 obs.logical = logical;
